@@ -285,7 +285,8 @@ def _key_from_same_mapping(f: Fn, n: ast.AST, name: str, coll: str) -> bool:
     if f.fi.qual != 'Constructor.__type_check_attributes':
         return False
     for lo in enclosing_loops(n, f.node):
-        if isinstance(lo, ast.For) and norm(lo.iter) == 'mapping.items()' and isinstance(lo.target, ast.Tuple) and norm(lo.target.elts[0]) == name:
+        if isinstance(lo, ast.For) and norm(lo.iter) == '%s.items()' % f.fi.params[2] and isinstance(lo.target, ast.Tuple) \
+                and norm(lo.target.elts[0]) == name and coll == '%s.value' % f.fi.params[1]:
             return True
     return False
 
@@ -609,27 +610,27 @@ def r17_2_key_named(ctx):
                         '%s:diagnose-arg:%s' % (fi.key, call_name(c)), fi.loc(c), '%s is called with %s, not the attribute/key being checked' % (call_name(c), a0))
     # which node's mark is cited
     f = fn(P, S.CTOR + '__type_check_attributes')
+    nodep = f.fi.params[1]
     for rs in f.raises():
         if S.raise_class(rs) != 'RecognitionError' or not isinstance(rs.exc, ast.Call) or not rs.exc.args:
             continue
-        marks = [n for n in ast.walk(rs.exc.args[0]) if isinstance(n, ast.Attribute) and n.attr in MARK_ATTRS]
-        txt = norm(rs.exc.args[0])
-        which = None
-        if 'diagnose_extraneous_key' in txt or any('diagnose_extraneous_key' in norm(x) for x in S._flow_sources(f, rs.exc.args[0].args[-1] if isinstance(rs.exc.args[0], ast.Call) and rs.exc.args[0].args else rs.exc.args[0])):
-            which = 0
-        elif 'Expected attribute' in txt:
-            which = 1
-        if which is None or not marks:
+        txt = ' '.join(flow_texts(f, rs, rs.exc.args[0]))
+        which = 0 if 'diagnose_extraneous_key' in txt else 1 if 'Expected attribute' in txt else None
+        if which is None:
             continue
-        mk = marks[0]
-        src = [x for x in assigned_from(f, norm(mk.value))] if isinstance(mk.value, ast.Name) else []
-        ok = False
-        for s_ in src:
-            if isinstance(s_, ast.Subscript) and isinstance(s_.value, ast.ListComp):
-                lc = s_.value
-                tgt = lc.generators[0].target
-                if isinstance(tgt, ast.Tuple) and norm(lc.elt) == norm(tgt.elts[which]) and norm(lc.generators[0].iter) == 'node.value':
-                    ok = True
+        recvs = _mark_receivers(f, rs, rs.exc.args[0])
+        ok = bool(recvs)
+        for e in recvs:
+            good = False
+            if isinstance(e, ast.Subscript) and isinstance(e.value, ast.ListComp) and isinstance(e.slice, ast.Constant) and e.slice.value == 0:
+                lc = e.value
+                g = lc.generators[0]
+                if len(lc.generators) == 1 and isinstance(g.target, ast.Tuple) and len(g.target.elts) == 2 \
+                        and norm(lc.elt) == norm(g.target.elts[which]) and norm(g.iter) == '%s.value' % nodep and len(g.ifs) == 1 \
+                        and isinstance(g.ifs[0], ast.Compare) and isinstance(g.ifs[0].ops[0], ast.Eq) \
+                        and norm(g.ifs[0].left) == '%s.value' % norm(g.target.elts[0]):
+                    good = True
+            ok = ok and good
         what = 'extraneous key -> the key node\'s mark' if which == 0 else 'wrong attribute type -> the value node\'s mark'
         r.check(ok, '__type_check_attributes: %s' % what, f.key('cited-node:%s' % ('key' if which == 0 else 'value')), f.loc(rs),
                 'the %s error cites the position of another node than the %s node' % ('extraneous-key' if which == 0 else 'attribute-type', 'key' if which == 0 else 'value'))
@@ -659,6 +660,31 @@ def flow_texts(f: Fn, use: ast.AST, e: ast.AST, depth: int = 4) -> List[str]:
                     if isinstance(d, ast.Assign) and len(d.targets) == 1 and isinstance(d.targets[0], ast.Name):
                         out += flow_texts(f, d, d.value, depth - 1)
     return out
+
+
+def _mark_receivers(f: Fn, use: ast.AST, e: ast.AST, depth: int = 4) -> List[ast.AST]:
+    """like mark_sources, but the receiver expressions themselves (locals resolved through their reaching definitions)"""
+    out: List[ast.AST] = []
+    for n in ast.walk(e):
+        if isinstance(n, ast.Attribute) and n.attr in MARK_ATTRS:
+            out += _resolve_node(f, use, n.value, depth)
+        elif isinstance(n, ast.Name) and isinstance(n.ctx, ast.Load) and depth > 0:
+            for d in reaching_defs(f, use, n.id):
+                if isinstance(d, ast.Assign) and len(d.targets) == 1 and isinstance(d.targets[0], ast.Name):
+                    out += _mark_receivers(f, d, d.value, depth - 1)
+    return out
+
+
+def _resolve_node(f: Fn, use: ast.AST, e: ast.AST, depth: int) -> List[ast.AST]:
+    if isinstance(e, ast.Name) and depth > 0 and e.id not in f.fi.params:
+        ds = [d for d in reaching_defs(f, use, e.id) if isinstance(d, ast.Assign) and len(d.targets) == 1
+              and isinstance(d.targets[0], ast.Name)]
+        if ds:
+            out: List[ast.AST] = []
+            for d in ds:
+                out += _resolve_node(f, d, d.value, depth - 1)
+            return out
+    return [e]
 
 
 def _node_sources(f: Fn, use: ast.AST, e: ast.AST, depth: int) -> Set[str]:
